@@ -71,7 +71,7 @@ of the box E_0 >= E_face = s*(min_i 1/(8 (G^-1)_ii) - beta); the harness also ev
 (4 x 241 points / 6 x 49^2) and on an interior mesh (121^2 / 33^3, band bottom).  s is chosen such that E_face - bottom =
 ratio*kT, ratio in [40,70], T in [300,2000] K.  Judged Fermi levels: bottom + 8 kT <= E_F <= E_face - 15.5 kT (f <= 2e-7 and
 f' <= 7.5e-7 of its pocket value 1/4kT on the boundary); Fermi grid: step 0.25 kT, 8.2 kT beyond the judged levels on both
-sides (the smoother is cut at 8 kT), so every zero-temperature curve entering a judged value belongs to a level >= 7.3 kT below
+sides (the smoother is cut at 8 kT), so every zero-temperature curve entering a judged value belongs to a level >= 7 kT below
 E_face: the pocket is closed at every level and integration by parts has no boundary term although H is not periodic.
 (hole_like is not drawn here: a filled band of a non-periodic k.p box does contribute a boundary term.)
 Judged pairs: Ohmic (all models), nonlinear Drude sea/surface (not for `parabolic`: both vanish identically), Berry dipole
@@ -133,7 +133,7 @@ ASSUMPTIONS = ["internal terms only (kwargs_formula external_terms=False); model
                "a periodic non-degenerate band quantity vanishes; calibrated on 12 models, same thresholds",
                "kp: the k.p Hamiltonian is not periodic; the identities hold because the pocket is closed: lowest band on the "
                "whole box boundary >= E_face (Weyl bound, cross-checked on a boundary mesh), judged levels <= E_face - 15.5 kT, "
-               "whole Fermi grid <= E_face - 7.3 kT; hole_like is therefore not used for k.p models",
+               "whole Fermi grid <= E_face - 7 kT; hole_like is therefore not used for k.p models",
                "kp: nested finite-difference derivatives are replaced by analytic ones (highest order first) when a run "
                "would need more than 1.1e6 model-function calls; finite_diff_dk = 1e-3 when three stencils are nested",
                "kp thresholds (PASS/CLEAR/CONV, calibration in the module docstring): 2D Ohmic 2/8/4 %, Berry dipole and GME "
@@ -634,10 +634,9 @@ def check_kp(case):
               "cartesian-k" if case["cartesian"] else "reduced-k", f"use_factor={case['use_factor']}",
               ("periodic=TTT" if case["periodic3"] else "periodic=TTF") if dim == 2 else None,
               "both-bands-occupied" if two else None, exact,
-              "rel<0.5%" if worst < 0.005 else ("rel<2%" if worst < 0.02 else "rel<5%"),
+              "rel<0.5%" if worst < 0.005 else ("rel<2%" if worst < 0.02 else "rel>=2%"),
               *[f"{n}:{status[n]}" for n in ("nldrude", "gme_orb") if n in ev.out],
               ("blind:" + ",".join(blind)) if blind else "all-pairs-discriminating")
-
 
 
 SUBS = [Sub("pairs", case_st(), check, quick=4, thorough=32, budget_quick=600, budget_thorough=1800, per_shard_min=1),
